@@ -30,12 +30,14 @@ func init() {
 				"all members or panics. R7: the constructor used for a recognised device is built from that profile's blocking mode " +
 				"and filtered-response TTL. R8: every rule-list engine (shared lists, blocked services, safe search) has a result cache of its own, so a cached verdict of one source is never returned for another.",
 			NotCovered: "what the urlfilter engine matches and the allow/block priority inside GetDNSBasicRule (library); equality of verdicts over all rule-list contents.",
-			Rules: map[string]string{"C02-R35": "ConstructorConfig.validate accepts exactly the configurations with a cloner, a blocking mode and a non-negative filtered-response TTL: a profile whose TTL is 0 gets its own constructor, hence its own blocking mode, not the server-wide fallback", "C02-R34": "the update time handed to the profile conversion is the time of the fetch, not the request's sync point (shared with C12-R10): a full sync, requested with the zero time, does not leave the profile's custom rules looking older than the compiled copy in the cache", "C02-R33": "backendpb.blockingModeToInternal maps every blocking mode of the backend to the mode of the same name (NXDOMAIN, null IP, REFUSED as constants, custom IP through its own converter; no mode at all is null IP): each case of the type switch returns the mode its case type names", "C02-R32": "the file-cache codec writes the parental switches field to field (shared with C14-R6): after a restart a profile has the safe-search filters it had before", "C02-R31": "ConfigSchedule.Contains (the parental pause): the moment is taken in the profile's time zone, the interval is the one of that local weekday, an absent or empty interval contains nothing, and the interval is closed at its start and open at its end, both counted in minutes from that local day's midnight", "C02-R30": "hashableSubdomains checks the whole private domain space when the public suffix is not an ICANN one (shared with C11-R7): a name under a private suffix is still looked up in the hash lists", "C02-R29": "the backend decoder files a custom blocking address under IPv4 only after Is4 and under IPv6 only after Is6 (the constructor cannot build a blocked answer from an address of the wrong family, and the middleware then serves the upstream's answer)", "C02-R28": "reqInfoToFltReq fills the filter request from the request information: the requester's own message constructor, address, host, type and class", "C02-R27": "filterDNSRewrite: a $dnsrewrite match without values for the question type is answered with an empty NOERROR response, never with an error that lets the query fall through", "C02-R26": "tables of setParental, setRuleLists and setSafeBrowsing: nothing is installed for a switched-off (or paused) section; inside an enabled one every selected filter is installed under its own switch, rule lists in the profile's order", "C02-R24": "a name handed to a rule list is lower-cased; no domain-name field of an upstream record reaches DNSResult as spelled", "C02-R25": "the hash-prefix verdict cache, shared by all requesters, holds no message made by one requester's constructor (blocking mode, TTL)", "C02-R23": "hash-prefix refresh: publish, then clear the verdict cache, only after success (shared with C13-R3)", "C02-R22": "a domain name built by concatenation and stored into a record's domain-name field is guarded by a length comparison (SOA mbox of blocked answers)", "C02-R21": "SetReply on a message that already is a response is followed by restoring its response code (cached blocked answers in NXDOMAIN / REFUSED mode)", "C02-RC": "class rules (error chains, shadowed results, character classes, crossed arguments, pool constructors, array pools, loop completeness, loop-carried buffers, replacing setters, complete clones, Grow arithmetic, pooled-buffer escape, sorted searches, fresh decode targets, per-iteration objects, whole-message copies, codec guards) over the packages this property rests on", "C02-R20": "the result-cache key is an injective packing of host, full question type, class and direction (shared with C12-R7)", "C02-R19": "response side of the composite filter: first answer with a verdict decides; every rule source consulted with the response's own data as an answer; answer-type dispatch", "C02-R18": "objects built per filtering group / profile in conversion loops take no slice carried across iterations (shared backing array or accumulation)", "C02-R1": "request-filter order", "C02-R2": "FilterRequest precedence", "C02-R17": "pooled per-request filtering state is fully re-initialised; rule-list gathering loops skip (never stop at) an unknown element", "C02-R15": "the profile's rule-list IDs keep the configured order through the backend conversion (the first list with a matching rewrite wins, so reordering changes verdicts)", "C02-R13": "blocking-mode fields (custom IPv4 / IPv6 answers) are converted name-to-name by the backend and file-cache codecs", "C02-R11": "mainmw.filterRequest / filterResponse: the filter is asked about this request and this upstream answer; a CNAME rewrite makes the rewritten question go upstream and restores ID, question and a leading CNAME on the way back instead of response filtering", "C02-R10": "in-place refreshable lists (safe search): engine swap and cache clear in one write-locked section, queries under the lock (shared with C12-R1/R2)", "C02-R3": "rule-list consultation order and rewrite priority",
+			Rules: map[string]string{"C02-R36": "filterSVCBHint splits the ipv4hint / ipv6hint value on commas and filters each address on its own: a blocked address in second or later position blocks the answer like one in first position", "C02-R35": "ConstructorConfig.validate accepts exactly the configurations with a cloner, a blocking mode and a non-negative filtered-response TTL: a profile whose TTL is 0 gets its own constructor, hence its own blocking mode, not the server-wide fallback", "C02-R34": "the update time handed to the profile conversion is the time of the fetch, not the request's sync point (shared with C12-R10): a full sync, requested with the zero time, does not leave the profile's custom rules looking older than the compiled copy in the cache", "C02-R33": "backendpb.blockingModeToInternal maps every blocking mode of the backend to the mode of the same name (NXDOMAIN, null IP, REFUSED as constants, custom IP through its own converter; no mode at all is null IP): each case of the type switch returns the mode its case type names", "C02-R32": "the file-cache codec writes the parental switches field to field (shared with C14-R6): after a restart a profile has the safe-search filters it had before", "C02-R31": "ConfigSchedule.Contains (the parental pause): the moment is taken in the profile's time zone, the interval is the one of that local weekday, an absent or empty interval contains nothing, and the interval is closed at its start and open at its end, both counted in minutes from that local day's midnight", "C02-R30": "hashableSubdomains checks the whole private domain space when the public suffix is not an ICANN one (shared with C11-R7): a name under a private suffix is still looked up in the hash lists", "C02-R29": "the backend decoder files a custom blocking address under IPv4 only after Is4 and under IPv6 only after Is6 (the constructor cannot build a blocked answer from an address of the wrong family, and the middleware then serves the upstream's answer)", "C02-R28": "reqInfoToFltReq fills the filter request from the request information: the requester's own message constructor, address, host, type and class", "C02-R27": "filterDNSRewrite: a $dnsrewrite match without values for the question type is answered with an empty NOERROR response, never with an error that lets the query fall through", "C02-R26": "tables of setParental, setRuleLists and setSafeBrowsing: nothing is installed for a switched-off (or paused) section; inside an enabled one every selected filter is installed under its own switch, rule lists in the profile's order", "C02-R24": "a name handed to a rule list is lower-cased; no domain-name field of an upstream record reaches DNSResult as spelled", "C02-R25": "the hash-prefix verdict cache, shared by all requesters, holds no message made by one requester's constructor (blocking mode, TTL)", "C02-R23": "hash-prefix refresh: publish, then clear the verdict cache, only after success (shared with C13-R3)", "C02-R22": "a domain name built by concatenation and stored into a record's domain-name field is guarded by a length comparison (SOA mbox of blocked answers)", "C02-R21": "SetReply on a message that already is a response is followed by restoring its response code (cached blocked answers in NXDOMAIN / REFUSED mode)", "C02-RC": "class rules (error chains, shadowed results, character classes, crossed arguments, pool constructors, array pools, loop completeness, loop-carried buffers, replacing setters, complete clones, Grow arithmetic, pooled-buffer escape, sorted searches, fresh decode targets, per-iteration objects, whole-message copies, codec guards) over the packages this property rests on", "C02-R20": "the result-cache key is an injective packing of host, full question type, class and direction (shared with C12-R7)", "C02-R19": "response side of the composite filter: first answer with a verdict decides; every rule source consulted with the response's own data as an answer; answer-type dispatch", "C02-R18": "objects built per filtering group / profile in conversion loops take no slice carried across iterations (shared backing array or accumulation)", "C02-R1": "request-filter order", "C02-R2": "FilterRequest precedence", "C02-R17": "pooled per-request filtering state is fully re-initialised; rule-list gathering loops skip (never stop at) an unknown element", "C02-R15": "the profile's rule-list IDs keep the configured order through the backend conversion (the first list with a matching rewrite wins, so reordering changes verdicts)", "C02-R13": "blocking-mode fields (custom IPv4 / IPv6 answers) are converted name-to-name by the backend and file-cache codecs", "C02-R11": "mainmw.filterRequest / filterResponse: the filter is asked about this request and this upstream answer; a CNAME rewrite makes the rewritten question go upstream and restores ID, question and a leading CNAME on the way back instead of response filtering", "C02-R10": "in-place refreshable lists (safe search): engine swap and cache clear in one write-locked section, queries under the lock (shared with C12-R1/R2)", "C02-R3": "rule-list consultation order and rewrite priority",
 				"C02-R4": "network rules before hosts rules", "C02-R5": "filter selection", "C02-R6": "response shaping and exhaustiveness", "C02-R7": "profile constructor provenance", "C02-R8": "one result cache per rule-list engine"},
 		}})
 }
 
 func runC02(c *an.Ctx) {
+	c.Floor("C02-R36", 1)
+	c02HintsSplitOnComma(c, "C02-R36")
 	c.Floor("C02-R35", 1)
 	decide(c, "C02-R35", "dnsmsg.(*ConstructorConfig).validate", an.DecideCfg{
 		Dom:    an.Domain{"p0.Cloner": an.NilOrNot, "p0.BlockingMode": an.NilOrNot, "p0.FilteredResponseTTL": an.Ints(-1, 0, 1)},
